@@ -7,7 +7,8 @@ import random
 import repo_check as rc
 from repo_check import W, T, CI, RC
 
-ORACLES = [rc.o5_removal]
+import onlyver
+
 RESTORE = None
 
 
@@ -40,7 +41,8 @@ def sharing_histories(seed, n):
             # --only-version: one recorded version of one of the targets (shared or not with paths outside the targets;
             # with two targets that both hold the version the designation is "not unique" and nothing may happen)
             tg = rng.choice([[victim], [victim], [a, b]])
-            h.append({'op': 'remove', 'targets': tg, 'only_version': [rng.choice(tg), rng.choice([0, 0, 1])], 'force': rng.random() < 0.15})
+            h.append({'op': 'remove', 'targets': tg, 'only_version': [rng.choice(tg), rng.choice([0, 0, 1])], 'force': rng.random() < 0.15,
+                      'only_form': onlyver.random_form(random.Random(f'c05-form-{seed}-{i}'))})
         else:
             h.append({'op': 'remove', 'targets': [victim], 'all_versions': op == 'remove-all', 'force': op == 'remove-force'})
         # what is left must still be restorable / removable
@@ -49,6 +51,154 @@ def sharing_histories(seed, n):
         if rng.random() < 0.5:
             h.append({'op': 'remove', 'targets': other[:1], 'all_versions': True})
         out.append((f'sharing-{kind}-{op}-{i}', cfg, h))
+    return out
+
+
+# ------------------------------------------------------------------------------------------------
+# hard links the commands did not make: several workspace names of one inode
+
+def exec_link(sb, c):
+    """the USER replaces the entry at `path` by a hard link (`rm path; ln <to> path`): to a file inside the workspace
+    (`to`) or to a file of their own outside the repository (`outside`: name, `bytes`, `readonly`)"""
+    import os
+    p = sb.path(c['path'])
+    if c.get('outside') is not None:
+        src = os.path.join(sb.base, 'outside', c['outside'])
+        if not os.path.exists(src):
+            os.makedirs(os.path.dirname(src), exist_ok=True)
+            with open(src, 'wb') as f:
+                f.write(c['bytes'])
+            os.chmod(src, 0o444 if c.get('readonly') else 0o644)
+    else:
+        src = sb.path(c['to'])
+    if not os.path.isfile(src) or os.path.islink(src):
+        return 1, '', 'link source is not a regular file'
+    os.makedirs(os.path.dirname(p), exist_ok=True)
+    if os.path.lexists(p):
+        os.unlink(p)
+    os.link(src, p)
+    return 0, '', ''
+
+
+def link_model_line(c):
+    if c.get('outside') is not None:
+        return '\t'.join(['linkout', c['path'], c['bytes'].hex(), '0' if c.get('readonly') else '1'])
+    return '\t'.join(['link', c['path'], c['to']])
+
+
+def parse_link_line(t):
+    if t[0] == 'linkout':
+        return {'op': 'link', 'path': t[1], 'outside': 'replayed.bin', 'bytes': bytes.fromhex(t[2]), 'readonly': t[3] == '0'}
+    return {'op': 'link', 'path': t[1], 'to': t[2]}
+
+
+def show_link(c):
+    if c.get('outside') is not None:
+        return f"rm -f {c['path']}; ln ../outside/{c['outside']} {c['path']}   [the user's own {'read-only ' if c.get('readonly') else ''}file outside the repository, {len(c['bytes'])} bytes]"
+    return f"rm -f {c['path']}; ln {c['to']} {c['path']}"
+
+
+def link_histories(seed, n):
+    """Workspace files with SEVERAL NAMES that are not (or no longer) links of their cache object.
+    Family `detached`: 2-3 paths with identical content tracked as hard links (object and paths are one inode); the object
+    is removed from the cache (`remove --from-cache` of all the duplicates, of one with --force, with --all-versions; or
+    not at all: refused without --force) - the paths still share their inode; then `untrack` of one / another / all.
+    Family `userlink`: the user replaces a tracked path (hard link, copy or symlink method; object in the cache or
+    removed before) by a hard link to a file of their own outside the repository (writable or read-only), to an
+    untracked file inside it, or to another tracked file; then `untrack`.
+    `expect_ok` marks the `untrack` commands that nothing entitles to fail."""
+    rng = random.Random(f'c05-links-{seed}')
+    out = []
+    for i in range(n):
+        e = rng.choice(['bin', 'bin', 'txt', ''])
+        nm = lambda s: s + ('.' + e if e else '')
+        X, Y, NEW = [bytes(f'{t}-links-{i}-{rng.randint(0, 999)}\n', 'ascii') + (b'\x00' if rng.random() < 0.3 else b'') for t in ('X', 'Y', 'NEW')]
+        par = lambda: {'no_parallel': rng.random() < 0.5}
+        method = rng.choice(['hardlink'] * 7 + ['copy', 'symlink', 'reflink'])
+        cfg = {'algo': rng.choice([0, 0, 1, 2, 3]), 'method': rng.choice([method, 'copy']), 'tob': 'auto'}
+        tm = {} if cfg['method'] == method else {'method': method}
+        u = nm('notes/u')
+        h = [W(u, NEW)]                                                    # an untracked bystander
+        if i % 2 == 0:
+            dups = [nm('a'), nm('d/b'), nm('c')][:rng.choice([2, 2, 3])]
+            z = nm('z')
+            h += [W(p, X) for p in dups] + [W(z, Y), T(dups + [z], **tm, **par())]
+            if rng.random() < 0.3:
+                h += [W(z, X), CI([z], **par())]                            # a non-duplicate that later has the same version
+            rm = rng.choice(['all', 'all', 'all', 'one-force', 'one-force', 'all-versions', 'one', 'none'])
+            gone = rm in ('all', 'one-force', 'all-versions')
+            if rm in ('all', 'all-versions'):
+                h.append({'op': 'remove', 'targets': list(dups), 'all_versions': rm == 'all-versions'})
+            elif rm != 'none':
+                h.append({'op': 'remove', 'targets': [rng.choice(dups)], 'force': rm == 'one-force'})
+            # a symbolic link whose object is gone dangles: it has no bytes, untrack may fail on it
+            ok = not (gone and method == 'symlink')
+            first = rng.choice([[dups[0]], [dups[-1]], list(dups), [dups[1], dups[0]]])
+            h.append({'op': 'untrack', 'targets': first, 'expect_ok': ok})
+            rest = [p for p in dups if p not in first]
+            if rest and rng.random() < 0.6:
+                h.append({'op': 'untrack', 'targets': rest, 'expect_ok': ok})
+            if rng.random() < 0.4:
+                h.append(RC([z], force=True, **par()))
+            out.append((f'links-detached-{method}-{len(dups)}dup-rm-{rm}-untrack{len(first)}-{i}', cfg, h))
+        else:
+            c, t = nm('c'), nm('d/t')
+            tmeth = rng.choice(['copy', 'hardlink', 'hardlink'])
+            h += [W(c, X), W(t, Y), T([c], **tm, **par()), T([t], method=tmeth, **par())]
+            if rng.random() < 0.3:
+                h += [W(c, bytes(f'X2-links-{i}\n', 'ascii')), CI([c], **par())]
+            removed = rng.random() < 0.3
+            if removed:
+                h.append({'op': 'remove', 'targets': [c], 'all_versions': rng.random() < 0.5})
+            to = rng.choice(['outside', 'outside', 'outside-readonly', 'untracked', 'untracked', 'tracked', 'tracked'])
+            if to.startswith('outside'):
+                h.append({'op': 'link', 'path': c, 'outside': f'new-{i}.bin', 'bytes': NEW + b'(outside)', 'readonly': to.endswith('readonly')})
+            else:
+                h.append({'op': 'link', 'path': c, 'to': u if to == 'untracked' else t})
+            tg = rng.choice([[c], [c], [c], [c, t], [t, c]])
+            h.append({'op': 'untrack', 'targets': tg, 'expect_ok': True})
+            if t not in tg and rng.random() < 0.5:
+                h.append(RC([t], force=rng.random() < 0.5, **par()))
+            out.append((f"links-userlink-{method}-to-{to}{'-' + tmeth if to == 'tracked' else ''}{'-object-removed' if removed else ''}-untrack{len(tg)}-{i}", cfg, h))
+    return out
+
+
+def o5_untrack_links(steps, cfg, history, assume_ok=False):
+    """C05, second sentence, for the `untrack` commands that nothing entitles to fail (`expect_ok`): exit status 0; every
+    target that was present is a regular, user-writable file of its own with unchanged bytes and is no longer recorded;
+    every other workspace path keeps its kind and bytes.  Judged whatever the exit status."""
+    from repo_check import read_through, entry_kind
+    from repo_harness import show_cmd
+    out = []
+    for st in steps:
+        c, pre, post = st['cmd'], st['pre'], st['post']
+        if c['op'] != 'untrack' or not (c.get('expect_ok') or assume_ok) or pre is None or post is None:
+            continue
+        head = f"step {st['i']} {show_cmd(c)}"
+        bad = []
+        for t in c['targets']:
+            if t not in pre.recs: continue
+            b = read_through(pre, t)
+            if t in post.recs:
+                bad.append(f'{t} is still recorded as tracked')
+            if b is None: continue
+            nb = read_through(post, t)
+            kind, _ = entry_kind(post, t)
+            if nb is None:
+                bad.append(f'{t} is gone from the workspace')
+            elif nb != b:
+                bad.append(f'{t} has other bytes than before')
+            elif kind != 'copy':
+                bad.append(f"{t} is '{kind}', not a regular writable file of its own")
+        if st['rc'] != 0:
+            out.append((f"{head}: exit status {st['rc']} ({(st.get('err') or '').strip()[-160:]}); " + ('; '.join(bad) or 'targets as required'),
+                        {'kind': 'untrack-failed', 'rc': 'panic' if st['rc'] not in (0, 1) else 'error'}))
+        elif bad:
+            out.append((f"{head}: " + '; '.join(bad), {'kind': 'untrack-target-not-regular-writable-unchanged'}))
+        for q in pre.ws:
+            if q in c['targets']: continue
+            if read_through(pre, q) != read_through(post, q) or pre.ws[q]['kind'] != post.ws.get(q, {}).get('kind'):
+                out.append((f"{head}: {q}, which is not a target, changed", {'kind': 'untrack-changed-non-target'}))
     return out
 
 
@@ -120,7 +270,8 @@ def storage_removal_scenario(chk, xvc, name, rng):
     if selk == 'only':
         bp, bk = rng.choice(targets), rng.choice([0, 0, 1])
         hist = pre.recs.get(bp, {}).get('hist', [])
-        hexp = ''.join(f'{x:02x}' for x in hist[bk]['digest'])[:12] if bk < len(hist) else 'ffffffffffff'
+        form = {'len': rng.choice([8, 10, 12, 12, 16, 27]), 'dash': rng.choice(['none', 'all', 'first']), 'upper': False}
+        hexp = onlyver.spell(''.join(f'{x:02x}' for x in hist[bk]['digest']), form) if bk < len(hist) else 'ffffffffffff'
         args += ['--only-version', hexp]; sel = f'only:{bp}:{bk}'
     if force: args.append('--force')
     # order of the cache path strings of all recorded versions (the model does not know the hex strings)
@@ -216,12 +367,38 @@ def storage_removal(chk, n):
             chk.oracle_failure(msg, {'scenario': s['readable'], 'model_lines': [l[:300] for l in s['lines']]}, None, signature=sig)
 
 
+RULE_EXTRA = (' + C05 streams: {ns} sharing histories (`remove --only-version` typed in every documented form: 0..12, 27, 28, 64 digits, dashes at the documented positions / '
+              'first only / none, lower and upper case; model side: the selection is made on the STRING, driver command `removepfx`, XvcRepo/OnlyVersion.lean); 6 fixed + {nt} generated histories '
+              'over lib/digest_prefix_table.json (contents whose digest begins with the identifier of a hash algorithm - b3, b2, a0 - or another pair of digits, plus contents '
+              'whose digest begins with the characters that follow; every table entry recomputed with lib/hashref.py); {nl} histories with workspace files that have SEVERAL NAMES '
+              'without being links of their cache object (hard-linked duplicates whose object was removed by `remove --from-cache` of all / of one with --force / --all-versions, '
+              'then untrack of one / all; a tracked path replaced by the user with a hard link to a file outside the repository - writable or read-only -, to an untracked file '
+              'inside it, to another tracked file; then untrack).  The model has no inode aliasing between workspace names (DESIGN 9.5): these histories are compared with the '
+              'model as far as the abstraction goes (kind, bytes, write bit, link of WHICH object; user links are the model actions `link`/`linkout`, XvcRepo/UserLink.lean), the '
+              'aliasing itself - exit status 0, targets regular + writable + unchanged + unlisted, every other name unchanged - is judged by the oracle `o5_untrack_links` alone; '
+              'string-level tie: every `remove --only-version` command that ran is sent to the driver as `onlyver <identifier> <string> <digests>` and the selection compared with what the binary deleted')
+
+
 def run(chk):
+    import functools
     n = 60 if chk.tier == 'quick' else 600
-    return rc.run_property(chk, 'C05', ORACLES, restore=RESTORE, nq=220, extra_corpus=sharing_histories(chk.seed, n),
-                           before_finish=lambda: storage_removal(chk, 36 if chk.tier == 'quick' else 360),
-                           fault_stream=18 if chk.tier == 'quick' else 200)
+    nt, nl = (16, 48) if chk.tier == 'quick' else (160, 480)
+    col = onlyver.Collector()
+    oracles = [rc.o5_removal, functools.partial(onlyver.oracle, collect=col), o5_untrack_links]
+
+    def before_finish():
+        storage_removal(chk, 36 if chk.tier == 'quick' else 360)
+        col.tie(chk, chk.repo_ctx['model'])
+        chk.extra['rule'] = chk.extra.get('rule', '') + RULE_EXTRA.format(ns=n, nt=nt, nl=nl)
+    return rc.run_property(chk, 'C05', oracles, restore=RESTORE, nq=220,
+                           extra_corpus=sharing_histories(chk.seed, n) + onlyver.table_histories(chk.seed, nt, tag='c05') + link_histories(chk.seed, nl),
+                           before_finish=before_finish, fault_stream=18 if chk.tier == 'quick' else 200,
+                           extra_props=['XvcRepo.Props.C05Link', 'XvcRepo.Props.C04Only'])
 
 
 def replay(chk, data):
-    return rc.replay_property(chk, data, ORACLES, restore=RESTORE)
+    import functools
+    # histories are stored as model lines, which do not carry the generator's `expect_ok` mark: when the recorded failure
+    # is one of the link stream's, every `untrack` of the replayed history is one that nothing entitles to fail
+    mine = any((f.get('signature') or {}).get('kind', '').startswith('untrack-') for f in data.get('failures', []))
+    return rc.replay_property(chk, data, [rc.o5_removal, onlyver.oracle, functools.partial(o5_untrack_links, assume_ok=mine)], restore=RESTORE)
